@@ -655,3 +655,24 @@ def add_vs_remove(prefix, caps=(1, 2), fut=False):
         out.append(scenario("%s-addrm3%s-c%d-%d" % (prefix, "F" if fut else "", cap, k), "bcast", fut, cap, "busy",
                             t.setup, threads, fin))
     return out
+
+
+def two_churners(prefix, caps=(1,), cycles_a=1, cycles_b=6):
+    """one thread is in the middle of removing a stream while another thread retires enough objects for a
+    whole reclamation cycle (one long freeze of the first thread is enough to expose a premature release)"""
+    out = []
+    for k, cap in enumerate(caps):
+        setup = [S("add_stream", "rx", new="pa"), S("add_stream", "rx", new="pb"), S("add_stream", "rx", new="cons_rx")]
+        a, b = [], []
+        for i in range(cycles_a):
+            a += [S("add_stream", "pa", new="xa%d" % i), S("drop", "xa%d" % i)]
+        for i in range(cycles_b):
+            b += [S("add_stream", "pb", new="xb%d" % i), S("drop", "xb%d" % i), S("clone", "pb", new="cb%d" % i),
+                  S("drop", "cb%d" % i), S("recv", "pb")]
+        prod = [S("send", "tx", v=101 + i) for i in range(4)]
+        fin = [S("drop", "tx")] + [S("drop", h) for h in ("rx", "pa", "pb", "cons_rx")]
+        for threads in ([a, b, prod], [a, b, prod, [S("recv", "cons_rx"), S("recv", "rx")]]):
+            s = scenario("%s-c%d-%d" % (prefix, cap, len(out)), "bcast", False, cap, "busy", setup, threads, fin)
+            s["livelock"] = 4000
+            out.append(s)
+    return out
